@@ -220,8 +220,8 @@ def run(ctx):
     cases = from_model(ctx)
     n_model = len(cases)
     cases += seeded(ctx, rnd, thorough)
-    os.makedirs(os.path.join(core.OUT, "traces"), exist_ok=True)
-    path = os.path.join(core.OUT, "traces", "C12_cases.json")
+    os.makedirs(os.path.join(core.OUT, "traces", str(os.getpid())), exist_ok=True)
+    path = os.path.join(core.OUT, "traces", str(os.getpid()), "C12_cases.json")
     slim = [{k: v for k, v in c.items() if k != "script"} for c in cases]
     with open(path, "w") as fh:
         json.dump(slim, fh)
